@@ -26,8 +26,10 @@ TRUSTED_BASE = ["pandas groupby/size/sum/unstack/reindex, numpy transpose/reshap
                 "documented meaning (counting functions over rows), tied by this correspondence run",
                 "float rounding is not modelled: inputs are dyadic rationals, outputs compared at 1e-9 "
                 "relative (1e-6 for EM, which iterates and has a convergence cut-off)",
-                "EM ascent (observed-data likelihood never decreases) is a TEST on pgmpy's per-iteration "
-                "likelihood, not a theorem (needs Gibbs' inequality over the reals)"]
+                "EM ascent (observed-data likelihood never decreases) is a THEOREM over the reals for the model "
+                "with the 1e-10 floor inactive (C06_em_monotone_abstract / C06_em_monotone_model; standard-library "
+                "axioms of the real numbers); on pgmpy itself (floats, floor, convergence cut-off) it is a TEST on "
+                "the per-iteration likelihood"]
 ASSUMPTIONS = ["variable names are interned to nat ids in Python's sort order of the names (pgmpy sorts parent "
                "names); a state is interned as its index in the declared state list (state_names) or in the "
                "sorted list of seen states",
